@@ -205,8 +205,12 @@ func (r *rwRT) ruleOracles() {
 		marked := func(st *State, from int) []string {
 			var out []string
 			for _, e := range st.Events[from:] {
-				if e.Kind == "mapupdate" && len(e.Args) == 3 && strings.Contains(e.Target, "yieldFunc") {
-					out = append(out, argLabel(e.Args[1]))
+				// an update of a set the rewriter holds (whatever it is called and however many there are), not of
+				// a map local to the collector (its visit cache)
+				if e.Kind == "mapupdate" && len(e.Args) == 3 {
+					if sy, ok := unwrap(e.Args[0]).(Sym); ok && strings.HasPrefix(sy.Name, "r.") {
+						out = append(out, argLabel(e.Args[1]))
+					}
 				}
 			}
 			return out
